@@ -256,12 +256,17 @@ func childBody(id string, n int) []byte {
 type crashWorkload struct {
 	Writers, Records, MaxBytes, MaxFiles, MaxDurMS, ReopenEvery int
 	TSOnly                                                      bool
+	RecLen                                                      int // body length of the shortest record (0: the child's default, 40)
 }
 
 func (w crashWorkload) args(dir, ack string) []string {
-	return []string{"-dir", dir, "-ack", ack, "-writers", strconv.Itoa(w.Writers), "-records", strconv.Itoa(w.Records),
+	a := []string{"-dir", dir, "-ack", ack, "-writers", strconv.Itoa(w.Writers), "-records", strconv.Itoa(w.Records),
 		"-maxbytes", strconv.Itoa(w.MaxBytes), "-maxfiles", strconv.Itoa(w.MaxFiles), "-maxdurms", strconv.Itoa(w.MaxDurMS),
 		"-reopen-every", strconv.Itoa(w.ReopenEvery), fmt.Sprintf("-tsonly=%v", w.TSOnly)}
+	if w.RecLen > 0 {
+		a = append(a, "-reclen", strconv.Itoa(w.RecLen))
+	}
+	return a
 }
 
 var fileSyscalls = "write,openat,close,rename,renameat,renameat2,unlink,unlinkat,chmod,fchmodat,mkdir,mkdirat"
@@ -452,6 +457,12 @@ func c08Crash(run *rt.Run) {
 		{Writers: 1, Records: 12, MaxBytes: 90, MaxFiles: 0, TSOnly: true, ReopenEvery: 4},
 		{Writers: 4, Records: 6, MaxBytes: 200, MaxFiles: 0, TSOnly: true, ReopenEvery: 3},
 		{Writers: 1, Records: 10, MaxBytes: 0, MaxFiles: 0, MaxDurMS: 0, ReopenEvery: 3},
+		// events at the upper end of the quantified range (1..200 bytes): an event that reaches the file in more
+		// than one write can be torn by a kill between two of them
+		{Writers: 1, Records: 8, MaxBytes: 300, MaxFiles: 0, RecLen: 170},
+	}
+	if !run.Quick() {
+		workloads = append(workloads, crashWorkload{Writers: 2, Records: 6, MaxBytes: 260, MaxFiles: 0, TSOnly: true, ReopenEvery: 4, RecLen: 135})
 	}
 	stride := run.Pick(2, 1)
 	job := 0
